@@ -24,7 +24,7 @@ RULE = (
     "path-ordered?, iteration>0, own-context shadow)."
 )
 ASSUMPTIONS = ["SQLite backend", "only path-ordered scalar keys are asserted by value; for unordered producers membership in the candidate set"]
-MIN_OBS = {"keys_checked": {"quick": 3000, "thorough": 50000}, "later_iteration_executions": {"quick": 50, "thorough": 500}, "reducer_orders": {"quick": 200, "thorough": 3000}, "interleaved_runs": {"quick": 60, "thorough": 800}}
+MIN_OBS = {"keys_checked": {"quick": 3000, "thorough": 50000}, "later_iteration_executions": {"quick": 50, "thorough": 500}, "reducer_orders": {"quick": 200, "thorough": 3000}, "interleaved_runs": {"quick": 60, "thorough": 800}, "reducer_iterations_checked": {"quick": 20, "thorough": 150}}
 TIMEOUT = {"quick": 600, "thorough": 3000}
 
 SCALARS = ["k1", "k2", "k3"]
@@ -292,6 +292,39 @@ def reducer_case(case: dict) -> dict:
             base = got
         elif got != base:
             out.append(viol("C16/reducer-order-dependent", f"engine fan-in: {base} vs {got}"))
+    # engine level: the fan-in with reducers sits inside a jump loop and the branches produce different
+    # (or no) values per iteration - the join must see the reduction of THIS iteration's branch outputs only
+    names = {"score": rng.choice(["sum", "max", "min"]), "cand": "collect"}
+    iters = rng.randint(1, 2)
+    per_iter: list[dict[str, dict]] = []
+    for it in range(iters + 1):
+        d = {}
+        for u in ups:
+            if rng.random() < (0.9 if it == 0 else 0.45):
+                d[u] = {"score": rng.randint(1, 20), "cand": f"c_{u}@{it}"}
+        per_iter.append(d)
+    stages = [specs.st("r")]
+    for u in ups:
+        stages.append(specs.st(u, ["r"], [{"kind": "ok", "raw_by_iter": {str(it): per_iter[it].get(u, {}) for it in range(iters + 1)}}]))
+    stages.append(specs.st("j", ups, [dict(specs.OK, out=["j_o"])], reducers=dict(names)))
+    stages.append(specs.st("z", ["j"], [{"kind": "jump", "to": "r", "times": iters, "out": ["z_o"]}]))
+    run = delivery_run({"name": "fanin_in_loop", "confluent": True, "stages": stages}, order=rng.choice(["fifo", "random"]), seed=rng.randrange(1 << 30), max_steps=900)
+    obs["evaluations"] += 1
+    recs = [r for r in run.ledger if r["ref"] == "j"]
+    if len(recs) != iters + 1:
+        v = oracles.attribute([viol("C16/join-did-not-run", f"fan-in inside a loop: join executed {len(recs)} times, expected {iters + 1} ({run.state['wf']})")], run, "C16")
+        out += v
+    for r in recs:
+        it = r["iter"]
+        vals_it = [d["score"] for d in per_iter[it].values()] if it < len(per_iter) else []
+        want_score = {"sum": sum(vals_it), "max": max(vals_it), "min": min(vals_it)}[names["score"]] if vals_it else None
+        want_cand = sorted(d["cand"] for d in per_iter[it].values()) if it < len(per_iter) else []
+        got_score = r["ctx"].get("score")
+        got_cand = sorted(map(str, r["ctx"].get("cand") or []))
+        obs["reducer_iterations_checked"] += 1
+        keys.add(f"redloop:{names['score']}:{it}:{len(vals_it)}")
+        if got_score != want_score or got_cand != want_cand:
+            out.append(viol("C16/reducer-value-of-another-iteration", f"iteration {it}: branches produced {per_iter[it] if it < len(per_iter) else {}}, join saw score={got_score} cand={got_cand} (expected {want_score}, {want_cand}); earlier iterations {per_iter[:it]}"))
     return {"violations": out[:5], "obs": dict(obs), "keys": sorted(keys)}
 
 
